@@ -27,6 +27,7 @@ func runC19(c *core.Ctx) {
 	h.adoptAndRevert("C19.3a adopt-revert")
 	h.commitConfigTied("C19.3b commit-config")
 	h.configSetters("C19.3c config-setters")
+	h.openStorageRebuild("C19.3d restart-rebuild")
 	h.servePrologue("C19.4 serve-prologue")
 }
 
